@@ -2,6 +2,7 @@
 # caller-supplied stream objects. All behaviour is prescribed by the scenario.
 
 import io
+import os
 
 
 class SimTextSource(object):
@@ -177,8 +178,9 @@ class SimRawSink(io.RawIOBase):
     """Raw byte sink accepting `budget` bytes, then raising BrokenPipeError on every further
     write (the reader end of a pipe has gone). budget=None: never breaks."""
 
-    def __init__(self, budget=None, log=None, name='rawsink', atomic=False):
+    def __init__(self, budget=None, log=None, name='rawsink', atomic=False, errno_code=None):
         io.RawIOBase.__init__(self)
+        self.errno_code = errno_code     # None: the reader is gone (EPIPE); else another device error, e.g. ENOSPC, EIO
         self.atomic = atomic      # True: a write that does not fit entirely is refused (the reader went away between two writes)
         self.budget = budget
         self.accepted = bytearray()
@@ -203,6 +205,8 @@ class SimRawSink(io.RawIOBase):
             self.raised += 1
             if self.log is not None:
                 self.log.add(self.name, 'write!', len(b))
+            if self.errno_code is not None:
+                raise OSError(self.errno_code, os.strerror(self.errno_code))
             raise BrokenPipeError(32, 'Broken pipe')
         k = min(room, len(b))
         self.accepted += b[:k]
